@@ -2,6 +2,8 @@ mod builtin_attribute;
 mod decl_feature;
 #[allow(clippy::module_inception)]
 mod property;
+#[cfg(feature = "verif")]
+mod verif;
 
 use hashbrown::{HashMap, HashSet};
 
